@@ -20,6 +20,12 @@ def checksum_state(I, v):
     return StructV('Checksum', {'value': v}, 'Checksum')
 
 def run(ctx, rep):
+    _run(ctx, rep)
+    if ctx.tier == 'thorough':
+        import witness
+        witness.check(rep, ctx, ['C17ValuePrivate'])
+
+def _run(ctx, rep):
     f = ctx.facts
     fns = fns_of(f, 'Checksum')
     for need in ('append', 'delete', 'add', 'sub', 'raw_value', 'value'):
